@@ -4,6 +4,11 @@
    [old_image_intact]; witnesses (Part 5): [wal_unsafe_refuted] (F8), [wal_fsync_necessary],
    [tree_fsync_necessary], [ht_fsync_necessary].
 
+   After the F8 fix (the post-meta truncation of the WAL is fsynced; [post_ok] accepts [EF FWal]):
+   [wal_safe_after_synced_truncation], [next_start_wal_safe] (a disciplined complete sync leaves
+   the WAL durably empty with nothing pending), [powerloss_atomic_next_sync], [history_atomic]
+   (along a history of complete syncs only the first one needs [wal_safe]).
+
    Deviations from the statements handed out (both machine-checked as necessary):
    * [wal_safe] is  wal_old = [] \/ (|wal_old| <= 1 /\ |wal_new| <= 1) \/ durable WAL empty
      instead of  |wal_old| <= 1 \/ durable WAL empty : [original_wal_safe_refuted].
@@ -324,6 +329,32 @@ Proof.
     + intros pn. inversion Hs; subst. simpl.
       apply fold_trunc0_zero; auto. intros q. rewrite pm_get_trunc.
       destruct (N.ltb_spec q 0); [lia|reflexivity].
+Qed.
+
+Lemma filter_trunc0 : forall l, Forall (fun o => o = PTrunc 0) l ->
+  filter is_complete l = l /\ filter (fun o => negb (is_complete o)) l = [].
+Proof.
+  intros l H. induction H as [|o l Ho Hl [IH1 IH2]]; simpl; [split; reflexivity|].
+  subst o. simpl. rewrite IH1, IH2. split; reflexivity.
+Qed.
+
+(* fsync of a file whose pending operations are all [PTrunc 0] *)
+Definition all_zero (m : list (N * cid)) : Prop := forall pn, pm_get m pn = 0%N.
+
+Lemma fsync_trunc0 : forall s f, Forall (fun o => o = PTrunc 0) (fpend s) ->
+  fpend (fstep s (EF f)) = [] /\
+  ((fpend s = [] /\ fdur (fstep s (EF f)) = fdur s) \/
+   (fpend s <> [] /\ all_zero (fdur (fstep s (EF f))))) /\
+  (all_zero (fdur s) -> all_zero (fdur (fstep s (EF f)))).
+Proof.
+  intros s f H. destruct (filter_trunc0 _ H) as [F1 F2]. simpl. rewrite F1, F2.
+  split; [reflexivity|]. split.
+  - destruct (fpend s) as [|o ops] eqn:E.
+    + left. split; reflexivity.
+    + right. split; [discriminate|]. inversion H; subst. simpl.
+      intros pn. apply fold_trunc0_zero; auto. intros q. rewrite pm_get_trunc.
+      destruct (N.ltb_spec q 0); [lia|reflexivity].
+  - intros Hz pn. apply fold_trunc0_zero; auto.
 Qed.
 
 Lemma fget_dstep : forall d e f,
@@ -784,7 +815,8 @@ Proof.
 Qed.
 
 (* ---- the switch-over and the post-phase ---- *)
-Lemma post_ok_files : forall e, post_ok I e = true -> ev_file e = FHt \/ e = ET FWal 0.
+Lemma post_ok_files : forall e, post_ok I e = true ->
+  ev_file e = FHt \/ e = ET FWal 0 \/ e = EF FWal.
 Proof.
   intros e He. destruct e as [g pn c|g pn c|g pn|g len|g]; simpl in *.
   - apply andb_true_iff in He. destruct He as [He _]. apply andb_true_iff in He. destruct He as [He _].
@@ -793,8 +825,10 @@ Proof.
     apply Nat.eqb_eq in He. left. exact He.
   - apply Nat.eqb_eq in He. left. exact He.
   - apply andb_true_iff in He. destruct He as [Ha Hb]. apply Nat.eqb_eq in Ha. apply N.eqb_eq in Hb.
-    subst. right. reflexivity.
-  - apply Nat.eqb_eq in He. left. exact He.
+    subst. right. left. reflexivity.
+  - apply orb_true_iff in He. destruct He as [He|He]; apply Nat.eqb_eq in He; subst g.
+    + left. reflexivity.
+    + right. right. reflexivity.
 Qed.
 
 Lemma post_ok_ht : forall (ok : N -> cid -> Prop) e,
@@ -927,34 +961,54 @@ Proof.
   rewrite !fget_dstep_other by (simpl; auto). reflexivity.
 Qed.
 
+(* the WAL in the post phase: only [PTrunc 0] pending; durably the new blob, or durably empty *)
+Definition wal_post (s : fstate) : Prop :=
+  Forall (fun o => o = PTrunc 0) (fpend s) /\
+  (fdur s = fdur (fget dp FWal) \/ all_zero (fdur s)).
+
+Lemma post_files_other : forall evs f,
+  Forall (fun e => post_ok I e = true) evs -> f = FMeta \/ f = FLn \/ f = FBbn ->
+  fget (drun d3 evs) f = fget d3 f.
+Proof.
+  intros evs f Hev Hf. rewrite Forall_forall in Hev.
+  apply drun_untouched. apply Forall_forall. intros e He.
+  destruct (post_ok_files e (Hev e He)) as [E|[E|E]]; [rewrite E|subst e; simpl|subst e; simpl];
+  destruct Hf as [->|[->| ->]]; discriminate.
+Qed.
+
+Lemma wal_post_run : forall evs,
+  Forall (fun e => post_ok I e = true) evs -> wal_post (fget (drun d3 evs) FWal).
+Proof.
+  intros evs Hev. rewrite Forall_forall in Hev.
+  apply (drun_file_inv wal_post).
+  - rewrite d3_other by discriminate. split; [rewrite pre_wal_clean; constructor|left; reflexivity].
+  - intros s e [Hp Hd] He Hf. destruct (post_ok_files e (Hev e He)) as [E|[E|E]].
+    + rewrite E in Hf. discriminate.
+    + subst e. split; simpl; [|exact Hd].
+      apply Forall_app. split; [exact Hp|]. constructor; [reflexivity|constructor].
+    + subst e. destruct (fsync_trunc0 s FWal Hp) as (F1 & F2 & F3). split.
+      * rewrite F1. constructor.
+      * destruct F2 as [[_ F2]|[_ F2]]; [|right; exact F2].
+        destruct Hd as [Hd|Hd]; [left; rewrite F2; exact Hd|right; apply F3; exact Hd].
+Qed.
+
 Lemma post_common : forall evs img,
   Forall (fun e => post_ok I e = true) evs -> pl_image (drun d3 evs) img ->
   img FMeta 0%N = m_new I /\ pages_ok img (tree_new I) = true /\
-  ((img FWal 0%N = hd 0%N (wal_new I) /\ wal_is img 0 (wal_new I) = true) \/
-   (img FWal 0%N = 0%N /\ fpend (fget (drun d3 evs) FWal) <> [])).
+  ((img FWal 0%N = hd 0%N (wal_new I) /\ wal_is img 0 (wal_new I) = true) \/ img FWal 0%N = 0%N).
 Proof.
-  intros evs img Hev Himg. rewrite Forall_forall in Hev.
-  assert (Hunt : forall f, f = FMeta \/ f = FLn \/ f = FBbn -> fget (drun d3 evs) f = fget d3 f).
-  { intros f Hf. apply drun_untouched. apply Forall_forall. intros e He.
-    destruct (post_ok_files e (Hev e He)) as [E|E]; [rewrite E|subst e; simpl];
-    destruct Hf as [->|[->| ->]]; discriminate. }
+  intros evs img Hev Himg.
+  pose proof (post_files_other evs) as Hunt.
   split; [|split].
   - destruct (Himg FMeta) as [keep [_ Hf]]. destruct d3_meta as [Ed Ep].
     rewrite Hf, Hunt by auto. rewrite clean_image by exact Ep. rewrite Ed. reflexivity.
   - apply (tree_new_image (drun d3 evs)); auto.
     + rewrite Hunt by auto. apply d3_other. discriminate.
     + rewrite Hunt by auto. apply d3_other. discriminate.
-  - apply wal_new_image; auto.
-    + apply (drun_file_inv (fun s => fdur s = fdur (fget dp FWal))).
-      * rewrite d3_other by discriminate. reflexivity.
-      * intros s e Hs He Hf. destruct (post_ok_files e (Hev e He)) as [E|E].
-        -- rewrite E in Hf. discriminate.
-        -- subst e. simpl. exact Hs.
-    + apply (drun_file_inv (fun s => Forall (fun o => o = PTrunc 0) (fpend s))).
-      * rewrite d3_other by discriminate. rewrite pre_wal_clean. constructor.
-      * intros s e Hs He Hf. destruct (post_ok_files e (Hev e He)) as [E|E].
-        -- rewrite E in Hf. discriminate.
-        -- subst e. simpl. apply Forall_app. split; [exact Hs|]. constructor; [reflexivity|constructor].
+  - destruct (wal_post_run evs Hev) as [Hp [Hd|Hd]].
+    + destruct (wal_new_image (drun d3 evs) img Hd Hp Himg) as [Hw|[Hw _]]; [left; exact Hw|right; exact Hw].
+    + right. destruct (Himg FWal) as [keep [_ Hf]]. rewrite Hf. unfold file_image.
+      apply fold_trunc0_zero; [exact Hd|]. apply Forall_sel. exact Hp.
 Qed.
 
 (* phase 3a: manifest durable, WAL not yet truncated: hash-table pages individually old or new *)
@@ -963,17 +1017,23 @@ Lemma phase3_A : forall evs img,
   pl_image (drun d3 evs) img -> recover I img = RNew.
 Proof.
   intros evs img Hev Hnt Himg.
-  destruct (post_common evs img Hev Himg) as (Hm & Ht & Hw).
+  destruct (post_common evs img Hev Himg) as (Hm & Ht & _).
   rewrite Forall_forall in Hev, Hnt.
   destruct HI as (I1 & I2 & I3 & I4 & I5 & I6 & I7 & I8 & I9 & I10 & _).
   destruct (pre_run_kept pre Hpre) as [_ (Kh & _)]. fold dp in Kh.
-  (* WAL untouched *)
-  assert (Hwp : fpend (fget (drun d3 evs) FWal) = []).
-  { rewrite drun_untouched.
-    - rewrite d3_other by discriminate. apply pre_wal_clean.
-    - apply Forall_forall. intros e He. destruct (post_ok_files e (Hev e He)) as [E|E].
-      + rewrite E. discriminate.
-      + subst e. specialize (Hnt _ He). simpl in Hnt. discriminate. }
+  (* the WAL still holds the new blob and has nothing pending: an fsync of it is a no-op *)
+  assert (Hws : fdur (fget (drun d3 evs) FWal) = fdur (fget dp FWal) /\
+                fpend (fget (drun d3 evs) FWal) = []).
+  { apply (drun_file_inv (fun s => fdur s = fdur (fget dp FWal) /\ fpend s = [])).
+    - rewrite d3_other by discriminate. split; [reflexivity|apply pre_wal_clean].
+    - intros s e [Hd Hp] He Hf. destruct (post_ok_files e (Hev e He)) as [E|[E|E]].
+      + rewrite E in Hf. discriminate.
+      + subst e. specialize (Hnt _ He). simpl in Hnt. discriminate.
+      + subst e. simpl. rewrite Hp. simpl. split; [exact Hd|reflexivity]. }
+  destruct Hws as [Hwd Hwp].
+  assert (Hw : (img FWal 0%N = hd 0%N (wal_new I) /\ wal_is img 0 (wal_new I) = true) \/
+               (img FWal 0%N = 0%N /\ fpend (fget (drun d3 evs) FWal) <> [])).
+  { apply wal_new_image; auto. rewrite Hwp. constructor. }
   destruct Hw as [[Hw0 Hw]|[_ Hw]]; [|contradiction].
   (* hash table *)
   set (ok := fun (pn : N) (c : cid) => c = pm_get (fdur (fget d0 FHt)) pn \/ c = pm_get (ht_new I) pn).
@@ -1018,7 +1078,7 @@ Proof.
   unfold recover. rewrite Hm.
   assert (E : N.eqb (m_new I) (m_old I) = false) by (apply N.eqb_neq; congruence).
   rewrite E, N.eqb_refl, Ht. simpl.
-  destruct Hw as [[Hw0 Hw]|[Hw0 _]]; rewrite Hw0.
+  destruct Hw as [[Hw0 Hw]|Hw0]; rewrite Hw0.
   - rewrite N.eqb_refl, Hw. rewrite ht_all_each_new; auto.
   - assert (E2 : N.eqb 0 (hd 0%N (wal_new I)) = false) by (apply N.eqb_neq; congruence).
     rewrite E2, Hht. reflexivity.
@@ -1050,6 +1110,27 @@ Proof.
   - apply (phase3_A (firstn k post)); auto.
     + apply Forall_firstn. exact Hpost.
     + apply Forall_firstn. apply index_of_none. exact Eit.
+Qed.
+
+(* the end of a complete sync (F8 fixed): truncation of the WAL followed by its fsync *)
+Lemma wal_final : forall p, Forall (fun e => post_ok I e = true) p ->
+  fpend (fget (drun d0 (pre ++ ew :: EF FMeta :: p ++ [ET FWal 0%N; EF FWal])) FWal) = [] /\
+  all_zero (fdur (fget (drun d0 (pre ++ ew :: EF FMeta :: p ++ [ET FWal 0%N; EF FWal])) FWal)).
+Proof.
+  intros p Hp. rewrite run_split, drun_app.
+  change (drun (drun d3 p) [ET FWal 0%N; EF FWal])
+    with (dstep (dstep (drun d3 p) (ET FWal 0%N)) (EF FWal)).
+  rewrite (fget_dstep _ (EF FWal) FWal). rewrite (fget_dstep _ (ET FWal 0%N) FWal).
+  change (Nat.eqb (ev_file (EF FWal)) FWal) with true.
+  change (Nat.eqb (ev_file (ET FWal 0%N)) FWal) with true. cbv iota.
+  destruct (wal_post_run p Hp) as [Hpend _].
+  set (s1 := fstep (fget (drun d3 p) FWal) (ET FWal 0%N)).
+  assert (H1 : Forall (fun o => o = PTrunc 0) (fpend s1)).
+  { unfold s1. simpl. apply Forall_app. split; [exact Hpend|]. constructor; [reflexivity|constructor]. }
+  assert (H2 : fpend s1 <> []).
+  { unfold s1. simpl. intros E. apply app_eq_nil in E. destruct E as [_ E]. discriminate. }
+  destruct (fsync_trunc0 s1 FWal H1) as (F1 & F2 & _).
+  split; [exact F1|]. destruct F2 as [[F2 _]|[_ F2]]; [contradiction|exact F2].
 Qed.
 
 End Switch.
@@ -1175,6 +1256,109 @@ Theorem old_image_intact : forall I d0 tr,
   pages_ok img (live_old I) = true /\ ht_all img (ht_old I) = true.
 Proof. intros I d0 tr HI H0 Hd n img Hn Himg. exact (intact_core I d0 HI H0 tr Hd n img Hn Himg). Qed.
 
+(* ---- what the F8 fix (fsync after the post-meta WAL truncation) buys ---- *)
+Theorem wal_safe_after_synced_truncation : forall I d0,
+  start_ok I d0 -> fpend (fget d0 FWal) = [] -> wal_is (image_of_durable d0) 0 [] = true ->
+  wal_safe I d0.
+Proof. intros I d0 _ _ H. right. right. exact H. Qed.
+
+Lemma tail2_inj : forall A (l l' : list A) a b a' b',
+  l ++ [a; b] = l' ++ [a'; b'] -> l = l' /\ a = a' /\ b = b'.
+Proof.
+  intros A l l' a b a' b' H.
+  replace (l ++ [a; b]) with ((l ++ [a]) ++ [b]) in H by (rewrite <- app_assoc; reflexivity).
+  replace (l' ++ [a'; b']) with ((l' ++ [a']) ++ [b']) in H by (rewrite <- app_assoc; reflexivity).
+  apply app_inj_tail in H. destruct H as [H Hb]. apply app_inj_tail in H. destruct H as [H Ha]. auto.
+Qed.
+
+Lemma last2_cases : forall A (l : list A),
+  l = [] \/ (exists z, l = [z]) \/ exists p x y, l = p ++ [x; y].
+Proof.
+  intros A l. rewrite <- (rev_involutive l). destruct (rev l) as [|y [|x r]]; simpl.
+  - left. reflexivity.
+  - right. left. exists y. reflexivity.
+  - right. right. exists (rev r), x, y. rewrite <- app_assoc. reflexivity.
+Qed.
+
+(* a complete sync: it contains the manifest fsync and ends with the truncation of the WAL and
+   the fsync of that truncation *)
+Definition complete (tr : list ev) : Prop :=
+  index_of is_meta_sync tr <> None /\ exists tr', tr = tr' ++ [ET FWal 0%N; EF FWal].
+
+(* after a disciplined complete sync the WAL has nothing pending and is durably empty *)
+Theorem next_start_wal_safe : forall I d0 tr,
+  inst_ok I -> start_ok I d0 -> discipline I d0 tr = true -> complete tr ->
+  fpend (fget (drun d0 tr) FWal) = [] /\ wal_is (image_of_durable (drun d0 tr)) 0 [] = true.
+Proof.
+  intros I d0 tr HI H0 Hd [Hsync [tr' Htail]].
+  destruct (discipline_shape _ _ _ Hd)
+    as [Hw Hsn Hall | pre post Htr Hiw His Hpre HcW HcL HcB Hwal Hpages Hpost Htrunc].
+  - contradiction.
+  - assert (Hp : exists p, post = p ++ [ET FWal 0%N; EF FWal]).
+    { rewrite Htr in Htail. destruct (last2_cases _ post) as [E|[[z E]|[p [x [y E]]]]]; subst post.
+      - apply tail2_inj in Htail. destruct Htail as (_ & _ & E). discriminate.
+      - change (pre ++ EW FMeta 0 (m_new I) :: EF FMeta :: [z])
+          with (pre ++ [EW FMeta 0 (m_new I)] ++ [EF FMeta; z]) in Htail.
+        rewrite app_assoc in Htail. apply tail2_inj in Htail. destruct Htail as (_ & E & _). discriminate.
+      - change (pre ++ EW FMeta 0 (m_new I) :: EF FMeta :: p ++ [x; y])
+          with (pre ++ (EW FMeta 0 (m_new I) :: EF FMeta :: p) ++ [x; y]) in Htail.
+        rewrite app_assoc in Htail. apply tail2_inj in Htail. destruct Htail as (_ & Ex & Ey).
+        subst x y. exists p. reflexivity. }
+    destruct Hp as [p Ep]. subst post.
+    assert (Hpp : Forall (fun e => post_ok I e = true) p).
+    { apply Forall_app in Hpost. destruct Hpost as [Hpp _]. exact Hpp. }
+    destruct (wal_final I d0 pre HcW p Hpp) as [F1 F2].
+    rewrite Htr. split; [exact F1|].
+    simpl. unfold image_of_durable. rewrite F2. reflexivity.
+Qed.
+
+(* hence the next sync needs no assumption about the WAL: [powerloss_atomic] applies to it *)
+Theorem powerloss_atomic_next_sync : forall I d0 tr I' tr2,
+  inst_ok I -> start_ok I d0 -> discipline I d0 tr = true -> complete tr ->
+  inst_ok I' -> start_ok I' (drun d0 tr) -> discipline I' (drun d0 tr) tr2 = true ->
+  forall n img, pl_image (drun (drun d0 tr) (firstn n tr2)) img ->
+    (recover I' img = ROld \/ recover I' img = RNew) /\
+    (forall iw, index_of is_meta_write tr2 = Some iw -> n <= iw -> recover I' img = ROld) /\
+    (forall is_, index_of is_meta_sync tr2 = Some is_ -> is_ < n -> recover I' img = RNew).
+Proof.
+  intros I d0 tr I' tr2 HI H0 Hd Hc HI' H0' Hd'.
+  destruct (next_start_wal_safe I d0 tr HI H0 Hd Hc) as [Hp Hw].
+  apply powerloss_atomic; auto. apply wal_safe_after_synced_truncation; auto.
+Qed.
+
+(* ... and so along a whole history of complete syncs: only the very first one needs [wal_safe] *)
+Definition atomic_at (I : inst) (d : disk) (tr : list ev) : Prop :=
+  forall n img, pl_image (drun d (firstn n tr)) img ->
+    (recover I img = ROld \/ recover I img = RNew) /\
+    (forall iw, index_of is_meta_write tr = Some iw -> n <= iw -> recover I img = ROld) /\
+    (forall is_, index_of is_meta_sync tr = Some is_ -> is_ < n -> recover I img = RNew).
+
+Fixpoint history (d0 : disk) (h : list (inst * list ev)) : Prop :=
+  match h with
+  | [] => True
+  | (J, tr) :: h' =>
+      inst_ok J /\ start_ok J d0 /\ discipline J d0 tr = true /\ complete tr /\ history (drun d0 tr) h'
+  end.
+
+Fixpoint all_atomic (d0 : disk) (h : list (inst * list ev)) : Prop :=
+  match h with
+  | [] => True
+  | (J, tr) :: h' => atomic_at J d0 tr /\ all_atomic (drun d0 tr) h'
+  end.
+
+Theorem history_atomic : forall h d0,
+  match h with [] => True | (J, _) :: _ => wal_safe J d0 end ->
+  history d0 h -> all_atomic d0 h.
+Proof.
+  intros h. induction h as [|[J tr] h IH]; intros d0 Hs Hh; simpl; [exact I|].
+  destruct Hh as (HI & H0 & Hd & Hc & Hh). split.
+  - intros n img Himg. apply (powerloss_atomic J d0 tr); auto.
+  - apply IH; [|exact Hh]. destruct h as [|[J' tr'] h']; [exact I|].
+    destruct Hh as (_ & H0' & _).
+    destruct (next_start_wal_safe J d0 tr HI H0 Hd Hc) as [Hp Hw].
+    apply wal_safe_after_synced_truncation; auto.
+Qed.
+
 (* ====================================================================================== *)
 (* Part 5: concrete witnesses (F8, necessity of each fsync)                                 *)
 (* ====================================================================================== *)
@@ -1264,6 +1448,18 @@ Module Witness.
   Lemma dD_safe : wal_safe ID dD. Proof. right. right. reflexivity. Qed.
   Example trD_disciplined : discipline ID dD trD = true. Proof. vm_compute. reflexivity. Qed.
   Example trD_atomic : check_all ID dD trD = true. Proof. vm_compute. reflexivity. Qed.
+  (* F8 fixed: the truncation of the WAL is fsynced; an fsync before the truncation is a no-op *)
+  Definition trD_fixed : list ev := trD ++ [EF FWal].
+  Definition trD_fixed' : list ev :=
+    [ET FWal 0; EW FWal 0 40; EF FWal; ES FLn 1 11; EC FLn 1; EF FLn;
+     EW FMeta 0 2; EF FMeta; EF FWal; ES FHt 3 60; EC FHt 3; EF FHt; ET FWal 0; EF FWal].
+  Example trD_fixed_disciplined : discipline ID dD trD_fixed = true. Proof. vm_compute. reflexivity. Qed.
+  Example trD_fixed_atomic : check_all ID dD trD_fixed = true. Proof. vm_compute. reflexivity. Qed.
+  Example trD_fixed'_disciplined : discipline ID dD trD_fixed' = true. Proof. vm_compute. reflexivity. Qed.
+  Example trD_fixed'_atomic : check_all ID dD trD_fixed' = true. Proof. vm_compute. reflexivity. Qed.
+  Example trD_fixed_final :
+    fpend (fget (drun dD trD_fixed) FWal) = [] /\ fdur (fget (drun dD trD_fixed) FWal) = [].
+  Proof. vm_compute. split; reflexivity. Qed.
 End Witness.
 
 (* F8 recorded: without wal_safe the statement is FALSE *)
@@ -1470,6 +1666,8 @@ Proof.
   split; [apply pl_image_of_keeps; vm_compute; reflexivity|vm_compute; reflexivity].
 Qed.
 
+Print Assumptions next_start_wal_safe.
+Print Assumptions history_atomic.
 Print Assumptions powerloss_atomic.
 Print Assumptions crash_atomic.
 Print Assumptions old_image_intact.
